@@ -74,7 +74,7 @@ end
 /-- every accepted message - under any leniency - is typed by the dictionary at every nesting level, carries a command
 code and application id the library knows, and nests no deeper than the decoder's limit -/
 theorem decMsg_typed (cfg : Cfg) (dict : Lookup) (bs : Bytes) (m : Msg) (h : decMsg cfg dict bs = .ok m) :
-    TypedList dict m.avps ∧ depthList m.avps ≤ cfg.limit ∧ cmdKnown m.cmd = true ∧ appKnown m.app = true := by
+    TypedList dict m.avps ∧ depthList m.avps ≤ cfg.limit ∧ cfg.tables.cmdKnown m.cmd = true ∧ cfg.tables.appKnown m.app = true := by
   unfold decMsg at h
   rw [Out.bind_eq_ok] at h
   obtain ⟨⟨hb, c1⟩, hr, h⟩ := h
